@@ -299,6 +299,172 @@ theorem manager_round_trip (hW : WF c ex) (hm : genMap c ex = .ok m) {o r : OEve
   rw [hx, hi]
   simp only [hcid]
 
+/-! ## (5) end to end: `ExecutionBuilder` → `MultiExchangeTxMap::find` → manager → client
+
+`adds` is the sequence of exchanges `add_mock` / `add_live` was called for, in call order (any
+order, any subset of the collection's exchanges — other sequences make the builder return `Err`,
+see `build_succeeds`); `t` the transmitter table `build()` returns. Hypothesis `WFX c`: keys are
+positions and exchange ids are distinct (no condition on names). -/
+
+variable {adds : List Nat} {t : TxMap}
+
+/-- The builder succeeds (no `Err`, no `assert_eq!` panic) for every duplicate-free sequence of
+exchanges of the collection, in any order; so the hypotheses `buildExecution c adds = .ok (some t)`
+below are satisfiable for every subset. -/
+theorem build_succeeds (hW : WFX c) (hn : adds.Nodup)
+    (hm : ∀ e ∈ adds, ∃ k ∈ c.exchanges, k.id = e) :
+    ∃ t, buildExecution c adds = .ok (some t) := by
+  obtain ⟨a, ha⟩ := addExecutions_succeeds hn hm [] (fun _ _ => rfl)
+  refine ⟨c.exchanges.map fun k => (k.id, if k.id ∈ adds then mkLink c k.id else none), ?_⟩
+  unfold buildExecution
+  rw [ha]
+  simp only [buildTxMap_eq hW ha]
+
+/-- The `assert_eq!` of `build()` never fires on a well-formed collection. -/
+theorem build_never_panics (hW : WFX c) : buildExecution c adds ≠ .ok none := by
+  intro h; cases buildExecution_ok hW h
+
+/-- The table has one slot per exchange of the collection, in exchange-index order (whatever the
+order of the `add_*` calls), and the positional lookup `find x` yields a transmitter exactly when
+the exchange *at index `x`* had an execution added — then the one of that exchange's own manager,
+whose map is the one generated for that exchange. -/
+theorem tx_table (hW : WFX c) (hb : buildExecution c adds = .ok (some t)) :
+    t.map (·.1) = c.exchanges.map (·.id) ∧
+    ∀ x l, t.find x = .ok l ↔
+      ∃ k m, c.exchanges[x]? = some k ∧ k.id ∈ adds ∧ genMap c k.id = .ok m ∧
+        l = { client := k.id, index := x, map := m } := by
+  have ht := buildExecution_ok hW hb
+  injection ht with ht; subst ht
+  refine ⟨by rw [List.map_map]; rfl, fun x l => ?_⟩
+  rw [find_built]
+  cases hx : c.exchanges[x]? with
+  | none => simp
+  | some k =>
+    have hmem := List.mem_of_getElem? hx
+    obtain ⟨m, hg⟩ := genMap_of_mem hmem
+    have hkey : m.exchange.key = x := by
+      rw [genMap_key hW.2 hmem hg]; exact key_of_getElem? KExchange.key hW.1.1 hx
+    have hl : mkLink c k.id = some { client := k.id, index := x, map := m } := by
+      unfold mkLink; rw [hg]; simp only [hkey]
+    by_cases hk : k.id ∈ adds
+    · simp only [if_pos hk, hl, Except.ok.injEq, Option.some.injEq]
+      constructor
+      · rintro rfl; exact ⟨k, m, rfl, hk, hg, rfl⟩
+      · rintro ⟨k', m', hk', _, hg', rfl⟩
+        cases hk'; rw [hg] at hg'; cases hg'; rfl
+    · simp only [if_neg hk]
+      constructor
+      · intro h; cases h
+      · rintro ⟨k', _, hk', hin, _⟩; cases hk'; exact absurd hin hk
+
+/-- Routing refines the specification the oracle evaluates, for every request. -/
+theorem route_refines_spec (hW : WFX c) (hb : buildExecution c adds = .ok (some t))
+    (o : OEvent Nat Nat) : route t o = specRoute c adds o :=
+  route_eq_spec hW hb o
+
+/-- (5) `route_reaches_own_client`: a request for instrument `i` of exchange index `x`, where the
+exchange at `x` had an execution added and `i` belongs to it, is handed to exactly that exchange's
+client, addressed with that exchange's id and the `name_exchange` of exactly instrument `i`; client
+order id and request state untouched. Holds wherever the exchange sorts in the collection and
+whichever other exchanges (before or after it) have no execution link. -/
+theorem route_reaches_own_client (hW : WFX c) (hb : buildExecution c adds = .ok (some t))
+    {o : OEvent Nat Nat} {kx : KExchange} (hx : c.exchanges[o.key.exchange]? = some kx)
+    (hl : kx.id ∈ adds) {ki : KInstrument} (hi : c.instruments[o.key.instrument]? = some ki)
+    (hown : ki.exchange = kx.id) :
+    route t o = .delivered kx.id
+      { key := { exchange := kx.id, instrument := ki.nameExchange, cid := o.key.cid },
+        state := o.state } := by
+  rw [route_eq_spec hW hb]
+  unfold specRoute
+  rw [hx]
+  simp only [if_pos hl]
+  rw [(specInstrumentName_some c kx.id _ ki.nameExchange).mpr ⟨ki, hi, hown, rfl⟩]
+
+/-- (5) `route_no_link_fails`: if the exchange at index `x` had no execution added, or `x` is out
+of range, the lookup reports an error and nothing is delivered to any client (in particular not to
+the client of a later exchange). -/
+theorem route_no_link_fails (hW : WFX c) (hb : buildExecution c adds = .ok (some t))
+    {o : OEvent Nat Nat} (hx : ∀ kx, c.exchanges[o.key.exchange]? = some kx → kx.id ∉ adds) :
+    route t o = .noTx ∧ t.find o.key.exchange = .error .exchangeIndex := by
+  constructor
+  · rw [route_eq_spec hW hb]
+    unfold specRoute
+    cases h : c.exchanges[o.key.exchange]? with
+    | none => rfl
+    | some k => simp only [if_neg (hx k h)]
+  · cases hf : t.find o.key.exchange with
+    | error e => cases e <;> first | rfl | (exfalso; revert hf; unfold TxMap.find; split <;> simp)
+    | ok l =>
+      obtain ⟨k, _, hk, hin, _⟩ := ((tx_table hW hb).2 _ l).mp hf
+      exact absurd hin (hx k hk)
+
+/-- (5) `route_foreign_instrument_rejected`: if instrument `i` is out of range or belongs to
+another exchange than the one at index `x`, the request reaches that exchange's own manager, which
+refuses it; no client is called (so none is addressed with a name of another exchange). -/
+theorem route_foreign_instrument_rejected (hW : WFX c) (hb : buildExecution c adds = .ok (some t))
+    {o : OEvent Nat Nat} {kx : KExchange} (hx : c.exchanges[o.key.exchange]? = some kx)
+    (hl : kx.id ∈ adds)
+    (hf : ∀ ki, c.instruments[o.key.instrument]? = some ki → ki.exchange ≠ kx.id) :
+    route t o = .managerPanic kx.id := by
+  rw [route_eq_spec hW hb]
+  unfold specRoute
+  rw [hx]
+  simp only [if_pos hl]
+  cases hs : specInstrumentName c kx.id o.key.instrument with
+  | none => rfl
+  | some n =>
+    obtain ⟨ki, hki, he, _⟩ := (specInstrumentName_some c kx.id _ n).mp hs
+    exact absurd he (hf ki hki)
+
+/-- (5) converse: whatever any client receives was addressed to it — the receiving client is the
+one of the exchange at the request's exchange index, that exchange has an execution link, the
+request carries that exchange's id and the `name_exchange` of the requested instrument, which
+belongs to that exchange. -/
+theorem route_delivered_sound (hW : WFX c) (hb : buildExecution c adds = .ok (some t))
+    {o r : OEvent Nat Nat} {cl : Nat} (h : route t o = .delivered cl r) :
+    ∃ kx ki, c.exchanges[o.key.exchange]? = some kx ∧ kx.id = cl ∧ cl ∈ adds ∧
+      c.instruments[o.key.instrument]? = some ki ∧ ki.exchange = cl ∧
+      r = { key := { exchange := cl, instrument := ki.nameExchange, cid := o.key.cid },
+            state := o.state } := by
+  rw [route_eq_spec hW hb] at h
+  unfold specRoute at h
+  cases hx : c.exchanges[o.key.exchange]? with
+  | none => rw [hx] at h; cases h
+  | some kx =>
+    rw [hx] at h
+    simp only at h
+    by_cases hl : kx.id ∈ adds
+    · rw [if_pos hl] at h
+      cases hs : specInstrumentName c kx.id o.key.instrument with
+      | none => rw [hs] at h; cases h
+      | some n =>
+        rw [hs] at h
+        obtain ⟨ki, hki, he, hn⟩ := (specInstrumentName_some c kx.id _ n).mp hs
+        injection h with h1 h2
+        subst h1
+        exact ⟨kx, ki, rfl, rfl, hl, hki, he, by rw [← h2, hn]⟩
+    · rw [if_neg hl] at h; cases h
+
+/-- (5) and back: when the called client answers with the key it was handed, the same manager
+attributes the answer to exactly the engine indices of the original request (needs the name →
+index direction, hence `WF` for that exchange). -/
+theorem route_round_trip (hW : WFX c) (hb : buildExecution c adds = .ok (some t))
+    {o : OEvent Nat Nat} {kx : KExchange} (hx : c.exchanges[o.key.exchange]? = some kx)
+    (hl : kx.id ∈ adds) (hWF : WF c kx.id) {ki : KInstrument}
+    (hi : c.instruments[o.key.instrument]? = some ki) (hown : ki.exchange = kx.id) :
+    routeResponse t o = some o.key := by
+  obtain ⟨m, hg⟩ := genMap_of_mem (List.mem_of_getElem? hx)
+  have hf : t.find o.key.exchange = .ok { client := kx.id, index := o.key.exchange, map := m } :=
+    ((tx_table hW hb).2 _ _).mpr ⟨kx, m, hx, hl, hg, rfl⟩
+  have hr := route_reaches_own_client hW hb hx hl hi hown
+  unfold route at hr
+  unfold routeResponse
+  rw [hf] at hr ⊢
+  simp only at hr ⊢
+  cases hreq : managerClientRequest m o with
+  | none => rw [hreq] at hr; cases hr
+  | some r => exact manager_round_trip hWF hg hreq
+
 /-! ## Non-vacuity: a concrete collection with two exchanges of unequal size whose asset and
 instrument names collide across exchanges (indices 0..2 / 0..4), well-formed for both. -/
 
@@ -323,5 +489,25 @@ fails in the model exactly as in the code (the later index wins). -/
 example : ∃ m, genMap ⟨[⟨0, 10⟩], [], [⟨0, 10, 7⟩, ⟨1, 10, 7⟩]⟩ 10 = .ok m ∧
     m.findInstrumentName 0 = .ok 7 ∧ m.findInstrumentIndex 7 = .ok 1 :=
   ⟨_, rfl, rfl, rfl⟩
+
+/-- routing non-vacuity: three exchanges in index order 10, 20, 30; executions added for 30 and 20
+(in this order) but *not* for 10, which sorts first. Requests for exchange index 1 / 2 reach the
+clients of 20 / 30, index 0 and 3 fail, a foreign instrument is refused by the own manager. -/
+def exampleColl3 : Coll :=
+  { exchanges := [⟨0, 10⟩, ⟨1, 20⟩, ⟨2, 30⟩]
+    assets := []
+    instruments := [⟨0, 20, 7⟩, ⟨1, 10, 7⟩, ⟨2, 30, 8⟩, ⟨3, 20, 9⟩] }
+
+example : WFX exampleColl3 := by decide
+example : ∃ t, buildExecution exampleColl3 [30, 20] = .ok (some t) ∧
+    t.map (fun s => (s.1, s.2.isSome)) = [(10, false), (20, true), (30, true)] ∧
+    route t ⟨⟨1, 3, 5⟩, 9⟩ = .delivered 20 ⟨⟨20, 9, 5⟩, 9⟩ ∧
+    route t ⟨⟨2, 2, 5⟩, 9⟩ = .delivered 30 ⟨⟨30, 8, 5⟩, 9⟩ ∧
+    route t ⟨⟨0, 1, 5⟩, 9⟩ = .noTx ∧ route t ⟨⟨3, 1, 5⟩, 9⟩ = .noTx ∧
+    route t ⟨⟨1, 2, 5⟩, 9⟩ = .managerPanic 20 ∧
+    routeResponse t ⟨⟨1, 3, 5⟩, 9⟩ = some ⟨1, 3, 5⟩ :=
+  ⟨_, rfl, by decide, by decide, by decide, by decide, by decide, by decide, by decide⟩
+example : buildExecution exampleColl3 [20, 20] = .error .duplicate ∧
+    buildExecution exampleColl3 [40] = .error .index := ⟨rfl, rfl⟩
 
 end BarterModel.Props.C04
